@@ -8,6 +8,7 @@ the run goes on.  Invoked by vf/checks/c04.py and c01.py in the thorough tier:
 """
 import json
 import os
+import re
 import sys
 
 ROOT = os.path.dirname(os.path.dirname(os.path.dirname(os.path.abspath(__file__))))
@@ -45,7 +46,8 @@ OPTS = [{}, {}, {"no_explicit_cast": True}, {"no_data_loss": True}, {"collect_er
 _built = {}
 OUT = os.environ.get("VF_FUZZ_OUT")
 _seen = set()
-STATS = {"execs": 0, "accepted": 0, "rejected": 0, "failures": 0}
+STATS = {"execs": 0, "accepted": 0, "rejected": 0, "failures": 0, "excluded_huge_exponent": 0}
+HUGE_EXPONENT = re.compile(r"[eE][+-]?[\d_]{5,}")
 
 
 def built(i, oi):
@@ -82,9 +84,14 @@ def one(data):
         x = fdp.ConsumeUnicodeNoSurrogates(fdp.remaining_bytes())
         if shape == 2:
             x = [x]
+    if HUGE_EXPONENT.search(x[0] if shape == 2 else x.decode("latin-1") if shape == 1 else x):
+        # excluded by construction, and counted: int(Decimal('1E+77000000')) is hours of libmpdec base conversion in one C call that no
+        # watchdog can interrupt (the conversion is slow, not wrong: C04 files the class as slow-inconclusive)
+        STATS["excluded_huge_exponent"] += 1
+        return
     S = built(i, oi)
     STATS["execs"] += 1
-    if STATS["execs"] % 2000 == 0 and OUT:
+    if STATS["execs"] % 250 == 0 and OUT:
         with open(OUT + ".stats", "w") as f:
             json.dump(STATS, f)
     from utype.utils.exceptions import ParseError
